@@ -8,6 +8,7 @@
  * -s free|parent-first|child-first fixes the interleaving of the caller and the forked child at the two
  * extremes the model allows: parent-first parks the child at birth until the caller enters its read on
  * the sync pipe; child-first parks the caller when fork returns until the child exec'ed / exited.
+ * -D detaches a child as soon as it has exec'ed successfully (no exit event for it then).
  * -f FD:r|w|a:PATH opens PATH (read / write+truncate / write+append, no truncation) on descriptor FD for
  * PROG (not close-on-exec); the tracer keeps the same open file
  * description and logs its file offset at the end ({"ev":"rawpos","fd":40,"pos":3}).  At the markers spawn:begin and
@@ -118,6 +119,7 @@ static struct { int on, task, sys, k; long long val; int fired; int persist; } I
 /* schedule control (-s): 0 free; 1 parent-first: the forked child (task 2) is parked at its first stop until
  * the caller (task 1) is entering its first read (then blocks on the sync pipe); 2 child-first: the caller is
  * parked when fork returns until the child has exec'ed, exited or passed the return marker */
+static int DETACH_EXEC = 0;   /* -D: let go of a child once it has exec'ed (its stops are then real stops) */
 static int SCHED = 0;
 static int sched_done = 0;
 static int child2_done = 0;
@@ -521,6 +523,8 @@ int main(int argc, char **argv)
             logpath = argv[++ai];
         else if (!strcmp(argv[ai], "-t") && ai + 1 < argc)
             timeout_ms = atol(argv[++ai]);
+        else if (!strcmp(argv[ai], "-D"))
+            DETACH_EXEC = 1;
         else if (!strcmp(argv[ai], "-s") && ai + 1 < argc) {
             const char *m = argv[++ai];
             SCHED = !strcmp(m, "parent-first") ? 1 : !strcmp(m, "child-first") ? 2 : 0;
@@ -705,6 +709,15 @@ int main(int argc, char **argv)
                 sys_exit(t, &r);
             }
             fflush(LOG);
+            if (DETACH_EXEC && !entry && t->execd && t->idx != 1) {
+                /* a ptraced task never really stops (its stop is reported to the tracer, not to its
+                 * parent): the exec'ed program is let go so that SIGSTOP / SIGCONT work as in real life */
+                fprintf(LOG, "{\"ev\":\"detached\",\"task\":%d}\n", t->idx);
+                ptrace(PTRACE_DETACH, pid, 0, 0);
+                t->alive = 0;
+                nalive--;
+                continue;
+            }
             resume(t, 0);
             if (sched_done == 2) {
                 /* parent-first: the caller is entering its read on the sync pipe */
